@@ -32,6 +32,7 @@ type roArena struct {
 	// that is the last thing in a mapped file; round 12 seeded an 8-byte load guarded for 5 bytes). tailAt says which
 	// allocation of the case it is (0 = the first), tail is where the tail allocation begins (len(mem) while unused).
 	nalloc, tailAt, tail int
+	seals               int
 }
 
 func roGet(w *mon.W) *roArena {
@@ -99,6 +100,13 @@ func roAlloc(w *mon.W, n int) []byte {
 func roSeal(w *mon.W) (func(), bool) {
 	a := roGet(w)
 	if a.full {
+		return func() {}, false
+	}
+	// Changing page protections takes the address-space lock of the process: sixteen workers doing it for every few
+	// cases spend most of their time waiting for each other (C09 thorough went from 4 to 45+ minutes). The thorough tier
+	// has a hundred times the cases: it protects one placement in sixteen, which is still several times what quick does.
+	a.seals++
+	if w.Cfg.Thorough() && a.seals&15 != 0 {
 		return func() {}, false
 	}
 	debug.SetPanicOnFault(true)
